@@ -152,7 +152,9 @@ def run(report, tier, seed, driver, proofs_ok):
         impls.append(io)
         ops.append({"op": "creds", "metadata": common.enc(md)})
     for pw in ["<absent>", NE, "hunter2", "", {"Ref": "P"}]:
-        for md in (None, cred_cases[1]):
+        dirty = {"AWS::CloudFormation::Authentication": {"S3Access": {"type": "S3", "accessKeyId": "AKIAEXAMPLE", "secretKey": "s3cr3t"}}}
+        marker_only = {"AWS::CloudFormation::Authentication": {"c": {"accessKeyId": NE, "secretKey": NE}}}
+        for md in (None, cred_cases[1], dirty, marker_only, cred_cases[len(cred_cases) // 2]):
             lp = {} if pw == "<absent>" else {"Password": pw}
             u = IAMUser(Type="AWS::IAM::User", Properties={"LoginProfile": lp}, Metadata=md)
             try:
